@@ -10,6 +10,7 @@ import FlatccModel.SchemaNum
 import FlatccModel.Layout
 import FlatccModel.Trie
 import FlatccModel.TrieGen
+import FlatccModel.Builder
 /-! `fmodel`: executes the model's definitions on protocol lines (stdin → stdout, one result line per op line). -/
 open Flatcc Flatcc.Util
 
@@ -419,9 +420,64 @@ def trieOp (args : List String) : String :=
     s!"snd={sndOk} cmp={match bad with | some i => toString i | none => "ok"} keys={termFree && distinct} gen={if same then "same" else "diff"} probes={";".intercalate rs}"
   | _ => "bad-op"
 
+
+/-! builder value trees -/
+partial def parseVal (toks : Array String) (i : Nat) : Flatcc.Builder.Val × Nat :=
+  open Flatcc.Builder in
+  let nat (j : Nat) := (toks.getD j "0").toNat!
+  let hex (j : Nat) := let t := toks.getD j "-"; if t == "-" then [] else hexToBytes t
+  match toks.getD i "N" with
+  | "T" =>
+    let n := nat (i + 1)
+    let (fs, j) := (List.range n).foldl (fun (acc : List (Nat × Val) × Nat) _ =>
+      let id := nat acc.2
+      let (v, j) := parseVal toks (acc.2 + 1)
+      (acc.1 ++ [(id, v)], j)) ([], i + 2)
+    (.tab fs, j)
+  | "W" =>
+    let n := nat (i + 1)
+    let (fs, j) := (List.range n).foldl (fun (acc : List (Nat × Val) × Nat) _ =>
+      let ty := nat acc.2
+      let (v, j) := parseVal toks (acc.2 + 1)
+      (acc.1 ++ [(ty, v)], j)) ([], i + 2)
+    (.uvec fs, j)
+  | "o" =>
+    let n := nat (i + 1)
+    let (fs, j) := (List.range n).foldl (fun (acc : List Val × Nat) _ =>
+      let (v, j) := parseVal toks acc.2
+      (acc.1 ++ [v], j)) ([], i + 2)
+    (.ovec fs, j)
+  | "i" => (.inl (nat (i + 1)) (nat (i + 2)) (hex (i + 3)), i + 4)
+  | "v" => (.vec (nat (i + 1)) (nat (i + 2)) (hex (i + 3)), i + 4)
+  | "u" => (.struct (nat (i + 1)) (hex (i + 2)), i + 3)
+  | "E" => (.embed (nat (i + 1) != 0) (nat (i + 2)) (nat (i + 3)) (hex (i + 4)), i + 5)
+  | "s" => (.str (hex (i + 1)), i + 2)
+  | "r" => (.ref (nat (i + 1)), i + 2)
+  | "B" =>
+    let (v, j) := parseVal toks (i + 4)
+    (.nested (hex (i + 1)) (nat (i + 2) != 0) (nat (i + 3)) v, j)
+  | "U" =>
+    let (v, j) := parseVal toks (i + 2)
+    (.union (nat (i + 1)) v, j)
+  | _ => (.null, i + 1)
+
+def buildOp (args : List String) : String :=
+  open Flatcc.Builder in
+  match args with
+  | flags :: ident :: ba :: _style :: toks =>
+    let fl := flags.toNat!
+    let (v, _) := parseVal toks.toArray 0
+    let cfg : Config := { ident := if ident == "-" then [] else hexToBytes ident, withSize := fl % 2 == 1,
+                          blockAlign := ba.toNat!, clustering := fl / 2 % 2 == 0 }
+    let (bytes, al, emits) := build cfg v
+    let es := ",".intercalate (emits.map (fun e => s!"{e.1}:{e.2}"))
+    s!"ok {al} {bytesToHex bytes} {if es.isEmpty then "-" else es}"
+  | _ => "bad-op"
+
 def step (line : String) : String :=
   match line.trimAscii.toString.splitOn " " with
   | "num" :: args => numOp args
+  | "build" :: args => buildOp args
   | "refmap" :: args => refmapOp args
   | "ident" :: args => identOp args
   | "emit" :: args => emitOp args
